@@ -215,6 +215,9 @@ def oracle_tables(tok, modules, ksks, raws):
     return bl, hrows, trows, vrows, drows
 
 
+RUNS = [0]
+
+
 def run_sign(sc: dict):
     """sc: modules, ksks {name: config dict}, schema, request (dict), ttl, validate (bool), faults {opindex: kind}
     -> dict with impl result, coq case text, observations"""
@@ -251,7 +254,12 @@ def run_sign(sc: dict):
             r = ri          # module initialisation failed (e.g. every login refused): the run stops before any signing
         else:
             p11 = ri[1]
-            r = vlib.run_impl(lambda: list(ksign.sign_bundles(req, cfg.get_schema("s"), p11, cfg.ksk_policy, cfg)))
+            RUNS[0] += 1
+            if RUNS[0] % 4 == 3:
+                with vlib.debug_logging():      # every fourth ceremony signs with debug logging on (the tools' --debug): same bundles
+                    r = vlib.run_impl(lambda: list(ksign.sign_bundles(req, cfg.get_schema("s"), p11, cfg.ksk_policy, cfg)))
+            else:
+                r = vlib.run_impl(lambda: list(ksign.sign_bundles(req, cfg.get_schema("s"), p11, cfg.ksk_policy, cfg)))
     finally:
         ksign.make_raw_rrsig = orig_raw
     bl, hrows, trows, vrows, drows = oracle_tables(tok, sc["modules"], sc["ksks"], raws)
